@@ -242,6 +242,20 @@ impl IntrospectionEntry {
             }
             let w = choose|c: ConnectionId| self.conn_id_idxs@.contains_key(c);
             assert(self.conn_id_idxs@.contains_key(w));
+            assert(self.index_ok());
+            assert(self.conn_ids@.len() > 0);
+            if self.queried is Some {
+                assert(o.conn_id_idxs@.contains_key(self.queried->Some_0.conn_id));
+            }
+            assert(self.queried_ok());
+        }
+    //@ghost before#1/2 `true`
+        proof {
+            let o = old(self);
+            assert(self.conn_id_idxs@ == o.conn_id_idxs@);
+            assert(self.conn_ids@ == o.conn_ids@);
+            assert(self.index_ok());
+            assert(self.queried_ok());
         }
     //@end
 }
